@@ -19,8 +19,8 @@ theorem schema_roundtrip :
 theorem store_straight_line : storeSchema.all (fun w => w.2.2.2) = true := by decide +kernel
 
 /-- A call records the function that was passed and the arguments' ids in call order. -/
-theorem call_binding (f x y : Reg) (fid : Id) (ret : STy) (vx vy : Val) (cx cy : Id)
-    (hf : regs[f]? = some (.fn fid ret 2)) (hx : regs[x]? = some (.val vx)) (hy : regs[y]? = some (.val vy))
+theorem call_binding (f x y : Reg) (fid : Id) (ret : STy) (px py : String) (vx vy : Val) (cx cy : Id)
+    (hf : regs[f]? = some (.fn fid ret [px, py])) (hx : regs[x]? = some (.val vx)) (hy : regs[y]? = some (.val vy))
     (hcx : vx.child = some cx) (hcy : vy.child = some cy) :
     (exec regs frames (.call f [x, y])).run.run s =
       (.ok ([.val (.scalar ret (some (s.counter + 1)) none)], frames),
@@ -28,14 +28,52 @@ theorem call_binding (f x y : Reg) (fid : Id) (ret : STy) (vx vy : Val) (cx cy :
                 ops := (s.counter + 1, .call [cx, cy] fid (.scalar ret.mirName)) :: s.ops }) := by
   simp_exec [hf, hx, hy, hcx, hcy, List.mapM_cons, List.mapM_nil, childIds]
 
+/-- Keyword arguments are bound to the declared parameters **by name, in declaration order**,
+whatever order they are written in: `f(py=y, px=x)` records `[x, y]`. -/
+theorem call_keyword_binding (f x y : Reg) (fid : Id) (ret : STy) (px py : String) (hne : px ≠ py)
+    (vx vy : Val) (cx cy : Id)
+    (hf : regs[f]? = some (.fn fid ret [px, py])) (hx : regs[x]? = some (.val vx)) (hy : regs[y]? = some (.val vy))
+    (hcx : vx.child = some cx) (hcy : vy.child = some cy) :
+    (exec regs frames (.call f [] [(py, y), (px, x)])).run.run s =
+      (.ok ([.val (.scalar ret (some (s.counter + 1)) none)], frames),
+       { s with counter := s.counter + 1,
+                ops := (s.counter + 1, .call [cx, cy] fid (.scalar ret.mirName)) :: s.ops }) := by
+  have h1 : (py == px) = false := by simpa using fun h => hne h.symm
+  simp_exec [hf, hx, hy, hcx, hcy, List.mapM_cons, List.mapM_nil, childIds, List.find?, h1, hne, Ne.symm hne]
+
+/-- … and a positional argument followed by the remaining parameter by keyword. -/
+theorem call_mixed_binding (f x y : Reg) (fid : Id) (ret : STy) (px py : String)
+    (vx vy : Val) (cx cy : Id)
+    (hf : regs[f]? = some (.fn fid ret [px, py])) (hx : regs[x]? = some (.val vx)) (hy : regs[y]? = some (.val vy))
+    (hcx : vx.child = some cx) (hcy : vy.child = some cy) :
+    (exec regs frames (.call f [x] [(py, y)])).run.run s =
+      (.ok ([.val (.scalar ret (some (s.counter + 1)) none)], frames),
+       { s with counter := s.counter + 1,
+                ops := (s.counter + 1, .call [cx, cy] fid (.scalar ret.mirName)) :: s.ops }) := by
+  simp_exec [hf, hx, hy, hcx, hcy, List.mapM_cons, List.mapM_nil, childIds, List.find?]
+
+/-- A keyword that names no remaining parameter (unknown, or already given positionally) is rejected. -/
+theorem call_unexpected_keyword_rejected (f x : Reg) (fid : Id) (ret : STy) (px bad : String)
+    (hf : regs[f]? = some (.fn fid ret [px])) :
+    (exec regs frames (.call f [x] [(bad, x)])).run.run s = (.error .T, s) := by
+  simp_exec [hf, List.mapM_nil]
+
 /-- A call with the wrong number of arguments is rejected and changes nothing. -/
-theorem call_arity_rejected (f : Reg) (args : List Reg) (fid : Id) (ret : STy) (np : Nat)
-    (hf : regs[f]? = some (.fn fid ret np)) (hne : args.length ≠ np) :
+theorem call_arity_rejected (f : Reg) (args : List Reg) (fid : Id) (ret : STy) (names : List String)
+    (hf : regs[f]? = some (.fn fid ret names)) (hne : args.length ≠ names.length) :
     (exec regs frames (.call f args)).run.run s = (.error .T, s) := by
-  simp_exec [hf, hne]
+  by_cases hgt : args.length > names.length
+  · simp_exec [hf, hgt]
+  · -- too few positional arguments and no keywords: the first missing parameter is not found
+    have hlt : args.length < names.length := by omega
+    have : names.drop args.length ≠ [] := by
+      intro h; have := congrArg List.length h; simp at this; omega
+    cases hd : names.drop args.length with
+    | nil => exact absurd hd this
+    | cons n rest => simp_exec [hf, hgt, hd, List.mapM_cons]
 
 /-- `reduce` is bound to the function passed, the array and the initial value. -/
-theorem reduce_binding (a f i : Reg) (e : Elem) (n : Option Int) (ca fid ci : Id) (ret : STy) (np : Nat) (vi : Val)
+theorem reduce_binding (a f i : Reg) (e : Elem) (n : Option Int) (ca fid ci : Id) (ret : STy) (np : List String) (vi : Val)
     (ha : regs[a]? = some (.val (.array e n (some ca)))) (hf : regs[f]? = some (.fn fid ret np))
     (hi : regs[i]? = some (.val vi)) (hci : vi.child = some ci) :
     (exec regs frames (.reduce a f i)).run.run s =
@@ -63,7 +101,7 @@ theorem fn_record (fr : Frame) (rest : List Frame) (ret : Reg) (ann : STy) (c : 
     (hr : regs[ret]? = some (.val (.scalar ann (some c) l))) (hnl : ann.mode ≠ .const)
     (hall : fr.params.all (fun p => isLiteralScalar p.2) = false) :
     (exec regs (fr :: rest) (.endFn ret ann)).run.run s =
-      (.ok ([.fn fr.fid ann fr.params.length], rest),
+      (.ok ([.fn fr.fid ann fr.pnames], rest),
        { s with ops := (fr.fid, .function fr.name (fr.params.map (·.1)) c (.scalar ann.mirName)) :: s.ops }) := by
   simp_exec [hr, hnl, hall]
 
